@@ -15,7 +15,43 @@ import (
 	"verifharness/internal/cases"
 	"verifharness/internal/cq"
 	"verifharness/internal/framefmt"
+	"verifharness/internal/noise"
 )
+
+// nr drives the unrelated library calls made between the compared calls (own stream: case generation is unaffected);
+// quiet suppresses them inside a family of calls that must run back to back
+var nr *cq.RNG
+var quiet bool
+var lastKey = "(none)"
+
+func step() {
+	if !quiet {
+		noise.Step(nr)
+	}
+}
+
+func clip(k string) string {
+	if len(k) > 300 {
+		return k[:300] + "..."
+	}
+	return k
+}
+
+// clone: a copy of a data frame that shares no slice or struct with the original (the methods replace
+// the FOpts / FRMPayload slices and write the MIC; the payload objects themselves are not modified)
+func clone(p lorawan.PHYPayload) lorawan.PHYPayload {
+	if m, ok := p.MACPayload.(*lorawan.MACPayload); ok {
+		c := *m
+		c.FHDR.FOpts = append([]lorawan.Payload(nil), m.FHDR.FOpts...)
+		c.FRMPayload = append([]lorawan.Payload(nil), m.FRMPayload...)
+		if m.FPort != nil {
+			pt := *m.FPort
+			c.FPort = &pt
+		}
+		p.MACPayload = &c
+	}
+	return p
+}
 
 func hx(b []byte) string { return fmt.Sprintf("%x", b) }
 
@@ -161,6 +197,16 @@ func newKeys(r *cq.RNG, v lorawan.MACVersion) keys {
 	if v == lorawan.LoRaWAN1_0 && r.Intn(4) != 0 { // 1.0: one NwkSKey
 		k.s, k.e = k.f, k.f
 	}
+	switch r.Intn(12) {
+	case 0, 1: // 1.1 session whose SNwkSIntKey equals the FNwkSIntKey (a 1.1 device on a 1.0 network server derives them equal)
+		k.s = k.f
+	case 2: // all network keys equal
+		k.s, k.e = k.f, k.f
+	case 3: // all-zero keys
+		k = keys{}
+	case 4: // zero integrity keys only
+		k.f, k.s = lorawan.AES128Key{}, lorawan.AES128Key{}
+	}
 	return k
 }
 
@@ -223,6 +269,8 @@ func dataOpt(r *cq.RNG, small bool) framefmt.Opt {
 }
 
 func pipeCase(s *cases.Set, p lorawan.PHYPayload, v lorawan.MACVersion, k keys, prm params, kind, keyPrefix string) []byte {
+	step()
+	orig := clone(p)
 	t := framefmt.Phy(p, 0)
 	full := uint32(0)
 	if m, ok := p.MACPayload.(*lorawan.MACPayload); ok {
@@ -233,15 +281,57 @@ func pipeCase(s *cases.Set, p lorawan.PHYPayload, v lorawan.MACVersion, k keys, 
 	if b != nil {
 		orx = receive(b, v, k, prm, full)
 	}
+	ks := fmt.Sprintf("%spipe:%s:fkey=%s:skey=%s:%s", keyPrefix, ver(v), hx(k.f[:]), hx(k.s[:]), t)
+	rp := map[string]interface{}{"api": "sender: EncryptFRMPayload, EncryptFOpts (1.1), Set*DataMIC, MarshalBinary; receiver: UnmarshalBinary, FCnt := full, Validate*DataMIC, DecryptFOpts (1.1) / DecodeFOptsToMACCommands (1.0), DecryptFRMPayload",
+		"macVersion": ver(v), "keys": k.hex(), "confFCnt": prm.conf, "txDR": prm.dr, "txCh": prm.ch, "frame": t, "fullFCnt": full,
+		"previous_compared_call": lastKey, "observed": map[string]string{"sent": otx, "received": orx}}
 	s.Add(cases.Case{Term: fmt.Sprintf("CPipe %s %s %s %s %s %s", ver(v), k.term(), prm.term(), t, otx, orx),
-		Key: fmt.Sprintf("%spipe:%s:%s", keyPrefix, ver(v), t), Kind: kind, Nontrivial: true,
-		Replay: map[string]interface{}{"api": "sender: EncryptFRMPayload, EncryptFOpts (1.1), Set*DataMIC, MarshalBinary; receiver: UnmarshalBinary, FCnt := full, Validate*DataMIC, DecryptFOpts (1.1) / DecodeFOptsToMACCommands (1.0), DecryptFRMPayload",
-			"macVersion": ver(v), "keys": k.hex(), "confFCnt": prm.conf, "txDR": prm.dr, "txCh": prm.ch, "frame": t, "fullFCnt": full,
-			"observed": map[string]string{"sent": otx, "received": orx}}})
+		Key: ks, Kind: kind, Nontrivial: true, Replay: rp})
+	lastKey = clip(ks)
+	s.Remember(ks, otx+" "+orx, rp, func() string {
+		q := clone(orig)
+		b2, o2 := send(&q, v, k, prm)
+		r2 := cq.Err
+		if b2 != nil {
+			r2 = receive(b2, v, k, prm, full)
+		}
+		return o2 + " " + r2
+	})
 	return b
 }
 
+// withMType: the same frame content sent in the other direction / as the other confirmation type
+func withMType(p lorawan.PHYPayload, mt lorawan.MType) lorawan.PHYPayload {
+	q := clone(p)
+	q.MHDR.MType = mt
+	return q
+}
+
+// dirFamily: the exchange of one frame content as a downlink, immediately afterwards as an uplink, then as a
+// downlink again (and the mirror image), with nothing in between: the direction of one exchange must not leak
+// into the next.
+func dirFamily(s *cases.Set, r *cq.RNG, v lorawan.MACVersion, i int) {
+	step()
+	quiet = true
+	defer func() { quiet = false }()
+	o := framefmt.Opt{MType: lorawan.UnconfirmedDataDown, Port: 1 + r.Intn(200), FRMLen: 1 + r.Intn(40), FOptsBytes: r.Intn(4), FCntHigh: i%2 == 0}
+	p := framefmt.DataFrame(r, o)
+	p.MACPayload.(*lorawan.MACPayload).FHDR.FOpts = nil // commands are direction specific: none
+	k := newKeys(r, v)
+	prm := params{counter(r), r.Byte(), r.Byte()}
+	seq := []lorawan.MType{lorawan.UnconfirmedDataDown, lorawan.UnconfirmedDataUp, lorawan.ConfirmedDataDown, lorawan.ConfirmedDataUp, lorawan.UnconfirmedDataUp, lorawan.UnconfirmedDataDown}
+	if i%2 == 1 {
+		seq = []lorawan.MType{lorawan.ConfirmedDataUp, lorawan.ConfirmedDataDown, lorawan.UnconfirmedDataUp, lorawan.UnconfirmedDataDown}
+	}
+	for _, mt := range seq {
+		pipeCase(s, withMType(p, mt), v, k, prm, "family-direction", "dirfamily:")
+	}
+}
+
 func tamperCase(s *cases.Set, b []byte, v lorawan.MACVersion, up bool, k keys, prm params, full uint32, kind, what string) {
+	if kind != "bitflip" {
+		step()
+	}
 	_, _, o := validate(b, v, up, k, prm, full)
 	s.Add(cases.Case{Term: fmt.Sprintf("CTamper %s %s %s %s %d %s %s", ver(v), cq.Bool(up), k.term(), prm.term(), full, cq.Bytes(b), o),
 		Key: fmt.Sprintf("tamper:%s:%s:up=%v:full=%d:conf=%d:dr=%d:ch=%d:bytes=%s", what, ver(v), up, full, prm.conf, prm.dr, prm.ch, hx(b)), Kind: kind, Nontrivial: true,
@@ -271,8 +361,9 @@ func main() {
 	log.SetOutput(io.Discard)
 	dir, seed, thorough := cases.Args()
 	r := cq.NewRNG(seed)
+	nr = cq.NewRNG(seed ^ 0x9e3779b97f4a7c15)
 	s := cases.New("C05", dir, "LW.Corr.C05",
-		"RFC 4493 examples first; corpus: FPort 0 with empty FRMPayload (C05-1), a frame whose MHDR RFU bit is flipped (C05-2). Pipeline: data frames with MAC commands in FOpts (0..15 bytes) and application payload (block-boundary lengths), commands on port 0, FOpts only, empty payloads, raw bytes; 4 MTypes, both MAC versions, FCnt above 2^16 in 70%, random keys (1.0: one network key), ConfFCnt/txDR/txCh random. Tampering: for a subset of frames EVERY single-bit flip of the serialised frame (the receiver extends the 16 bits on the wire with its own upper 16 bits), and every single-parameter mismatch: each key with one bit flipped, FCnt +/- 2^16, ConfFCnt + 1 and + 2^16, txDR, txCh, validation with the other direction's function, the other MAC version. Every case distinct by construction.")
+		"RFC 4493 examples first; corpus: FPort 0 with empty FRMPayload (C05-1), a frame whose MHDR RFU bit is flipped (C05-2). Pipeline: data frames with MAC commands in FOpts (0..15 bytes) and application payload (block-boundary lengths), commands on port 0, FOpts only, empty payloads, raw bytes; 4 MTypes, both MAC versions, FCnt above 2^16 in 70%, random keys (1.0: one network key; in a third of the sessions SNwkSIntKey = FNwkSIntKey, all network keys equal, all-zero keys or zero integrity keys), ConfFCnt/txDR/txCh random; the bytes the implementation sends are also given to the model's receiver (a specification-conformant peer must recover the content). History: unrelated library calls (internal/noise) before every compared call; direction families run back to back (one frame content exchanged as downlink, uplink, confirmed downlink, confirmed uplink, uplink, downlink); every pipeline call is repeated twice later in the process (reverse and same order) and must give its first result. Tampering: for a subset of frames EVERY single-bit flip of the serialised frame (the receiver extends the 16 bits on the wire with its own upper 16 bits), and every single-parameter mismatch: each key with one bit flipped, FCnt +/- 2^16, ConfFCnt + 1 and + 2^16, txDR, txCh, validation with the other direction's function, the other MAC version. Every case distinct by construction.")
 	s.ShardSize = 200
 	nPipe, nFlipFrames := 160, 24
 	if thorough {
@@ -340,6 +431,9 @@ func main() {
 		if b == nil {
 			continue
 		}
+		if i%4 == 3 {
+			dirFamily(s, r, v, i/4)
+		}
 		if i < nFlipFrames {
 			// every single-bit flip
 			for pos := 0; pos < len(b)*8; pos++ {
@@ -380,6 +474,7 @@ func main() {
 			tamperCase(s, b, vers[(i+1)%2], up, k, prm, full, "param-version", "other-version")
 		}
 	}
+	s.ReplayRemembered(nr.Intn, 2, func() { noise.Step(nr) })
 	if err := s.Finish(); err != nil {
 		fmt.Fprintln(os.Stderr, err)
 		os.Exit(2)
